@@ -168,7 +168,7 @@ class Ref(object):
         self.execs = {}
 
     def clone(self):
-        r = Ref(); r.machines = copy.deepcopy(self.machines); r.execs = copy.deepcopy(self.execs); r.logging = getattr(self, "logging", True); r.strict = getattr(self, "strict", False)
+        r = Ref(); r.machines = copy.deepcopy(self.machines); r.execs = copy.deepcopy(self.execs); r.logging = getattr(self, "logging", True); r.strict = getattr(self, "strict", False); r.max_anon = getattr(self, "max_anon", 2)
         return r
 
     def expect(self, call, now):
@@ -236,7 +236,7 @@ class Ref(object):
             out = dict(inp, x=1) if d == D2 else inp
             if "name" not in p:
                 # an execution started without a name gets a fresh one: never the ARN of an execution that already exists
-                if sum(1 for r in E.values() if ANON_RE.search(r["name"])) >= 2:
+                if sum(1 for r in E.values() if ANON_RE.search(r["name"])) >= getattr(self, "max_anon", 2):
                     return ("skip",)       # bound: at most two unnamed executions in a store state
                 got = {}
                 def chk(b):
@@ -382,11 +382,12 @@ def bfs(tier, blocking=False, shared_only=False, strict=False):
     ref0 = Ref()
     ref0.logging = not blocking
     ref0.strict = strict
+    ref0.max_anon = 2 if tier == "quick" else 1      # (the search to the fixed point allows one unnamed execution per store state)
     seen = {ref0.canon(): 0}
     frontier = [(sut.snapshot(), ref0, [])]
     states = transitions = 0
     findings = {}
-    max_states = 160 if tier == "quick" else 100000
+    max_states = 160 if tier == "quick" else 1500
     depth = 0
     capped = False
     while frontier:
@@ -396,8 +397,7 @@ def bfs(tier, blocking=False, shared_only=False, strict=False):
             for c in calls:
                 if c["tag"].startswith(("body-", "noparams-")) and len(path) > 2:
                     continue      # refused before the stores are looked at: issued in every state up to depth 2 only
-                if not strict and ("lintbad" in c["tag"] or "dupkeys" in c["tag"]) and len(path) > 2:
-                    continue      # (a third definition value multiplies the store states: beyond depth 2 these calls belong to the validating search)
+                lint_call = not strict and ("lintbad" in c["tag"] or "dupkeys" in c["tag"])
                 sut.restore(snap)
                 before = sut.full_dump()
                 r2 = ref.clone()
@@ -419,6 +419,8 @@ def bfs(tier, blocking=False, shared_only=False, strict=False):
                         findings[sig] = (v[1], path + [c["tag"]])
                     continue
                 k = r2.canon()
+                if lint_call:
+                    continue      # judged in every state, but the states it leads to (a third definition value) are expanded by the validating search only
                 if k not in seen:
                     if len(seen) >= max_states:
                         capped = True
